@@ -63,7 +63,7 @@ def gitignores(tier: str) -> list[tuple[str, list[str]]]:
 # ------------------------------------------------------------------------------------------
 
 
-def trace_templates(respect: bool = True, siblings: bool = False) -> list[tuple[str, str]]:
+def trace_templates(respect: bool = True, siblings: bool = False, overlap: bool = False) -> list[tuple[str, str]]:
     import flowmark.file_resolver.resolver as R
     from flowmark.file_resolver import FileResolver, FileResolverConfig
 
@@ -76,12 +76,15 @@ def trace_templates(respect: bool = True, siblings: bool = False) -> list[tuple[
             self.origin = str(Path(directory).resolve().relative_to(root)) if Path(directory).resolve() != root else ""
 
         def match_file(self, arg: Any) -> bool:
-            calls.append((self.origin if self.origin != "." else "", str(arg)))
+            calls.append((self.origin if self.origin != "." else "", str(arg), cur_top[0]))  # type: ignore[arg-type]
             return False
 
     real, real_walk = R.load_gitignore, R.os.walk
 
+    cur_top = [""]
+
     def walk(top: Any, *a: Any, **kw: Any) -> Any:
+        cur_top[0] = str(Path(top).resolve())
         for dp, dn, fn in real_walk(top, *a, **kw):
             dn.sort()   # mk0sib is visited before mkone, mkzsib after it
             yield dp, dn, fn
@@ -95,7 +98,8 @@ def trace_templates(respect: bool = True, siblings: bool = False) -> list[tuple[
                 (root / f"{pre}sib" / f"{pre}sub" / f"{pre}file.md").write_text("x\n")
         R.load_gitignore = lambda d: TraceSpec(d)
         R.os.walk = walk
-        res = FileResolver(FileResolverConfig(respect_gitignore=respect)).resolve([root])
+        # overlap: one resolver, two traversal roots, the outer one first (state kept between the walks is in play)
+        res = FileResolver(FileResolverConfig(respect_gitignore=respect)).resolve([root, root / "mkone"] if overlap else [root])
         if len(res) != (3 if siblings else 1):
             raise RuntimeError(f"marker tree resolved to {res}")
     finally:
@@ -103,8 +107,12 @@ def trace_templates(respect: bool = True, siblings: bool = False) -> list[tuple[
         R.os.walk = real_walk
         shutil.rmtree(base, ignore_errors=True)
     out = []
-    for origin, arg in calls:
-        if siblings:
+    for origin, arg, top in calls:  # type: ignore[misc]
+        if overlap:
+            # calls made during the walk rooted at mkone on the spec of a .gitignore above that root
+            if top == str(root / "mkone") and origin == "":
+                out.append((origin, arg))
+        elif siblings:
             # calls about a sibling branch (before or after mkone in the walk) made on the spec of mkone's own .gitignore
             if origin.startswith("mkone") and any(m in arg for m in ("mk0", "mkz")):
                 out.append((origin, arg.replace("mk0", "mkz")))
@@ -195,7 +203,7 @@ def formulas(lines: list[str], origin: str, templates: list[tuple[str, str]], d1
 # ------------------------------------------------------------------------------------------
 
 
-def replay(lines: list[str], origin_is_root: bool, d1: str, d2: str, f: str, respect: bool = True, gi_dir: str | None = None) -> dict[str, Any]:
+def replay(lines: list[str], origin_is_root: bool, d1: str, d2: str, f: str, respect: bool = True, gi_dir: str | None = None, overlap: bool = False) -> dict[str, Any]:
     """gi_dir: put the .gitignore in this other top-level directory (scope check: it must not reach d1/d2/f)"""
     base = Path(tempfile.mkdtemp(prefix="c18r_")).resolve()
     root = base / "root"
@@ -211,9 +219,15 @@ def replay(lines: list[str], origin_is_root: bool, d1: str, d2: str, f: str, res
         subprocess.run(["git", "init", "-q", str(root)], env=env, check=True, capture_output=True)
         r = subprocess.run(["git", "-C", str(root), "check-ignore", "-q", f"{d1}/{d2}/{f}"], env=env, capture_output=True)
         git_ignored = r.returncode == 0
+        if overlap:
+            # second traversal root d1: git's answer for that root is the one of a repository rooted there
+            subprocess.run(["git", "init", "-q", str(root / d1)], env=env, check=True, capture_output=True)
+            r = subprocess.run(["git", "-C", str(root / d1), "check-ignore", "-q", f"{d2}/{f}"], env=env, capture_output=True)
+            git_ignored = git_ignored and r.returncode == 0   # listed iff kept from at least one of the two roots
+            shutil.rmtree(root / d1 / ".git", ignore_errors=True)
         code = (
             "import sys\nfrom flowmark.file_resolver import FileResolver, FileResolverConfig\n"
-            f"res = FileResolver(FileResolverConfig(respect_gitignore={respect!r})).resolve([sys.argv[1]])\n"
+            f"res = FileResolver(FileResolverConfig(respect_gitignore={respect!r})).resolve([sys.argv[1]]" + (f" + [sys.argv[1] + '/' + {d1!r}]" if overlap else "") + ")\n"
             "print('\\n'.join(str(p) for p in res))\n"
         )
         e2 = dict(os.environ)
@@ -250,11 +264,12 @@ def main() -> int:
         templates = trace_templates(True)
         templates_off = trace_templates(False)
         sib_templates = trace_templates(True, siblings=True)
+        ovl_templates = trace_templates(True, overlap=True)
         signal.alarm(0)
     except Exception as e:  # noqa: BLE001
         signal.alarm(0)
         harness.append(f"trace of _walk_directory failed: {type(e).__name__}: {e}")
-        templates, templates_off, sib_templates = [], [], []
+        templates, templates_off, sib_templates, ovl_templates = [], [], [], []
     if not templates:
         harness.append("the traversal made no gitignore call on the marker tree (vacuous)")
     if templates_off:
@@ -344,6 +359,35 @@ def main() -> int:
                 break
         if scope_confirmed:
             break
+    # ---- overlapping traversal roots [root, root/d1] in one resolve(): the walk rooted at d1 must not consult root's .gitignore
+    ovl_q = ovl_sat = ovl_confirmed = 0
+    if ovl_templates:
+        for form, lines in files:
+            if ovl_confirmed:
+                break
+            try:
+                il = _impl_langs(lines)
+            except re2smt.TranslationRefused:
+                continue
+            s = z3.Solver()
+            s.set("timeout", 30000)
+            s.add(z3.InRe(d1, comp), z3.InRe(d2, comp), z3.InRe(f, fcomp), z3.Or([_decide(_template_term(arg, d1, d2, f), il) for _o, arg in ovl_templates]))
+            t1 = time.time()
+            r = s.check()
+            solver_s += time.time() - t1
+            ovl_q += 1
+            if r == z3.sat:
+                ovl_sat += 1
+                m = s.model()
+                a, b, c = [m.eval(v, model_completion=True).as_string() for v in (d1, d2, f)]  # type: ignore[union-attr]
+                rr = replay(lines, True, a, b, c, overlap=True)
+                if not rr.get("hang") and not rr["git_ignored"] and not rr["listed"]:
+                    ovl_confirmed += 1
+                    findings.append(C.Finding("C18", "gitignore/scope[above-root-file-reaches-inner-traversal-root]",
+                                              f"resolve([root, root/{a}]): .gitignore {lines} at root hides {a}/{b}/{c} although the traversal rooted at {a}/ has no .gitignore from its root down",
+                                              {"op": "c18", "lines": lines, "origin_root": True, "d1": a, "d2": b, "f": c, "respect": True, "overlap": True}))
+            elif r != z3.unsat:
+                harness.append(f"solver unknown for the overlapping-roots query of {lines}")
     # ---- replay
     confirmed = ref_errors = checked = 0
     for form, lines, at_root, a, b, c, impl_says in jobs:
@@ -402,6 +446,7 @@ def main() -> int:
         samples_note="each sample: a .gitignore, where it sits, the path z3 produced, what git and flowmark said",
         templates=[list(t) for t in templates],
         templates_no_respect=[list(t) for t in templates_off],
+        overlapping_roots={"calls_in_the_inner_walk_on_a_spec_above_its_root": [list(t) for t in ovl_templates], "queries": ovl_q, "sat": ovl_sat, "confirmed": ovl_confirmed},
         sibling_scope={"calls_on_a_nested_spec_about_a_sibling_branch": [list(t) for t in sib_templates], "queries": scope_q, "sat": scope_sat, "confirmed": scope_confirmed,
                        "note": "marker tree with a branch visited before and one visited after the directory holding the .gitignore; no such call = nothing to ask the solver"},
         queries=nq, unsat=nunsat, sat=nsat, refused=nrefused, confirmed_disagreements=confirmed, reference_errors=ref_errors,
@@ -416,7 +461,7 @@ def main() -> int:
 
 def replay_file(doc: dict[str, Any]) -> int:
     r = doc["replay"]
-    rr = replay(r["lines"], r["origin_root"], r["d1"], r["d2"], r["f"], r.get("respect", True), gi_dir=r.get("gi_dir"))
+    rr = replay(r["lines"], r["origin_root"], r["d1"], r["d2"], r["f"], r.get("respect", True), gi_dir=r.get("gi_dir"), overlap=bool(r.get("overlap")))
     print(rr)
     if rr.get("hang"):
         return 1
